@@ -305,14 +305,17 @@ func newFacts(grace int) *facts {
 }
 
 // ownerJustifies: does the owner of this allocation (per the API = the truth) still justify it?
-func (f *facts) ownerJustifies(e entry, b int) bool {
+func (f *facts) ownerJustifies(e entry, b int) bool { return f.justifiedBy(f.api, e, b) }
+
+// justifiedBy: same judgement against an arbitrary pod source (API = the truth, or the informer cache)
+func (f *facts) justifiedBy(pods map[int]podT, e entry, b int) bool {
 	switch e.kind {
 	case "t":
 		// a tunnel address is justified while its node exists
 		k, ok := f.cnodes[e.node]
 		return ok && k >= 0 && f.knodes[k]
 	case "p":
-		p, ok := f.api[e.pod]
+		p, ok := pods[e.pod]
 		if !ok {
 			return false
 		}
@@ -526,8 +529,10 @@ func doSync(h *rt.H, s *state, full bool, fail func(string, string)) string {
 			}
 			if f.ownerJustifies(*ent, r.b) {
 				sig := "release-in-use"
-				if k, ok := f.cnodes[ent.node]; !ok || k < 0 || !f.knodes[k] {
-					// the hosting node is gone/unknown: the final check used the (stale) informer cache, no grace period
+				if k, ok := f.cnodes[ent.node]; (!ok || k < 0 || !f.knodes[k]) && !f.justifiedBy(f.cache, *ent, r.b) {
+					// the hosting node is gone/unknown AND the informer cache has lost the pod the API still has:
+					// the final check used the stale cache, no grace period (known trade-off).  When cache and API
+					// AGREE that the pod exists with this address, this stays a plain release-in-use alarm.
 					sig = "release-in-use-node-gone-stale-cache"
 				}
 				fail(sig, "released an address whose owner still justifies it at the time of release: "+id)
@@ -937,9 +942,42 @@ func genStaleCacheNodeGone(h *rt.H) []string {
 	return ops
 }
 
+// genNodeGoneBeforePods: the Kubernetes Node and the Calico Node of a node are deleted while its pod still exists
+// (cache and API agree) with Spec.NodeName = that node and still reports the address: nothing may be released.
+func genNodeGoneBeforePods(h *rt.H) []string {
+	p := 1 + h.Intn(6)
+	o := ownerOf(p)
+	b := 1 + h.Intn(nBlocks)
+	ord := h.Intn(blockSize)
+	ops := []string{"new " + rt.Pick(h, []string{"60", "60", "0", "-"}), "insync"}
+	for n := 1; n <= nNodes; n++ {
+		ops = append(ops, fmt.Sprintf("cnode %d %d", n, n), fmt.Sprintf("knode %d 1", n))
+	}
+	ops = append(ops, fmt.Sprintf("block %d %d %d:%d:p:%d:%d:7", b, o.node, ord, p, o.node, o.pod))
+	ops = append(ops, fmt.Sprintf("pod %d 1 1 %d 0 %d.%d", p, o.node, b, ord), "sync "+b01(h.Bool()))
+	del := []string{fmt.Sprintf("knode %d 0", o.node), fmt.Sprintf("cnodedel %d", o.node)}
+	switch h.Intn(4) {
+	case 0:
+		del = del[:1] // only the Kubernetes Node object
+	case 1:
+		del = del[1:] // only the Calico Node resource
+	case 2:
+		del[0], del[1] = del[1], del[0]
+	}
+	ops = append(ops, del...)
+	if h.Bool() {
+		ops = append(ops, fmt.Sprintf("dirty %d", o.node))
+	}
+	ops = append(ops, "sync 1", "tick 70", "sync "+b01(h.Bool()), "dump")
+	return ops
+}
+
 func genCase(h *rt.H) []string {
 	if h.Chance(0.08) {
 		return genStaleCache(h)
+	}
+	if h.Chance(0.04) {
+		return genNodeGoneBeforePods(h)
 	}
 	if h.Chance(0.02) {
 		return genStaleCacheNodeGone(h)
@@ -1091,9 +1129,10 @@ func genCase(h *rt.H) []string {
 		case r < 60: // Kubernetes node deleted / re-created
 			nd := 1 + h.Intn(nNodes)
 			if g.knodes[nd] {
-				// a deleted node takes its pods with it (keeps cache and API in agreement where the final check uses the cache)
+				// usually a deleted node takes its pods with it; sometimes the Node object goes first and the pods linger
+				keepPods := h.Chance(0.35)
 				for _, p := range []int{1, 2, 3, 4, 5, 6} {
-					if ownerOf(p).node == nd && g.pods[p] {
+					if !keepPods && ownerOf(p).node == nd && g.pods[p] {
 						g.emit(fmt.Sprintf("poddel %d 1 1", p))
 						delete(g.pods, p)
 					}
@@ -1107,8 +1146,9 @@ func genCase(h *rt.H) []string {
 		case r < 64: // Calico node resource deleted / re-created / not a Kubernetes node
 			nd := 1 + h.Intn(nNodes)
 			if g.cnodes[nd] {
+				keepPods := h.Chance(0.35)
 				for _, p := range []int{1, 2, 3, 4, 5, 6} {
-					if ownerOf(p).node == nd && g.pods[p] {
+					if !keepPods && ownerOf(p).node == nd && g.pods[p] {
 						g.emit(fmt.Sprintf("poddel %d 1 1", p))
 						delete(g.pods, p)
 					}
@@ -1174,7 +1214,7 @@ func main() {
 	h := rt.New()
 	defer h.Close()
 	h.Rule = "case = `new GRACE` (60 min / 0 / unset) + 3 Calico+Kubernetes nodes + 10..54 ops (thorough ..109) over {block update (allocate, release, re-allocate with a new sequence number, " +
-		"affinity change incl. host->host and host->virtual, clear), block delete, pod add/change/delete (missing IPs, other IP, evicted, rescheduled, unscheduled), stale informer cache (also together with a deleted Calico node), Kubernetes node delete/create, " +
+		"affinity change incl. host->host and host->virtual, clear), block delete, pod add/change/delete (missing IPs, other IP, evicted, rescheduled, unscheduled), stale informer cache (also together with a deleted Calico node), Kubernetes node delete/create (with or before its pods), " +
 		"Calico node delete/create/non-k8s, dirty mark, tick 25/40/70 min, sync (dirty/full), dump} on 5 blocks of 8 addresses and 11 handles (pod, tunnel, unknown-source, windows-reserved, no handle, no node attribute); " +
 		"generator keeps outcomes independent of Go map order (<=1 empty block per node; a pod reports all or none of its handle's addresses; cache/API disagree only for single-address handles on existing nodes); " +
 		"distinct = distinct op sequence; non-trivial = the case issued at least one ReleaseIPs / ReleaseBlockAffinity / ReleaseHostAffinities call"
